@@ -141,6 +141,30 @@ def run_case(case):
     u0_id = id(u0)
     uend, stats = ctrl.run(u0, t0, Tend)
     r.check(digest(u0) == u0_dig, 'caller-u0-unchanged', f'{r.key}: the caller\'s u0 was modified by run()')
+    if case['restarts']:
+        # second leg on the SAME controller (step sizes left behind by the first leg may differ from step to step)
+        ev1 = list(hook.events)
+        acc1 = sorted([e for e in ev1 if e['cb'] == 'post_step' and not e.get('restart')], key=lambda e: (e['time'], e['seq']))
+        if acc1:
+            t1 = acc1[-1]['time'] + acc1[-1]['dt']
+            T2 = t1 + 2.7 * procs * max(e['dt'] for e in acc1)
+            hook.events.clear()
+            u1_dig = digest(uend)
+            uend2, _ = ctrl.run(uend, t1, T2)
+            r.check(digest(uend) == u1_dig, 'caller-u0-unchanged', f'{r.key}: second leg modified the value passed in')
+            acc2 = sorted([e for e in hook.events if e['cb'] == 'post_step' and not e.get('restart')], key=lambda e: (e['time'], e['seq']))
+            r.check(len(acc2) >= 1 and acc2[0]['time'] == t1, 'second-leg-first-start', f'{r.key}: second leg starts at {acc2[0]["time"] if acc2 else None!r}, asked {t1!r}')
+            for a, b in zip(acc2[:-1], acc2[1:]):
+                gap = b['time'] - (a['time'] + a['dt'])
+                tol = (procs + 2) * ulp(max(abs(a['time']), abs(b['time']), abs(a['dt'])))
+                r.check(abs(gap) <= tol, 'contiguous', f'{r.key}: second leg on the re-used controller: accepted step at {b["time"]!r} does not start where the previous one ({a["time"]!r} + {a["dt"]!r}) ends: gap {gap:.3e}')
+                r.check(b['dig'][0]['u'][0] == a['dig'][0]['uend'], 'value-chain', f'{r.key}: second leg: step at t={b["time"]!r} does not start from the previous end value')
+            if acc2:
+                r.check(digest(uend2) == acc2[-1]['dig'][0]['uend'], 'returned-is-last-end', f'{r.key}: second leg: returned value is not the last end value')
+                r.check(acc2[-1]['time'] + acc2[-1]['dt'] >= T2 - max(10 * EPS, 4 * ulp(T2)), 'reaches-Tend', f'{r.key}: second leg stopped before its Tend')
+                r.count('second_legs')
+                r.observe('second_leg_distinct_dt', len({e['dt'] for e in acc2}) > 1)
+            hook.events[:] = ev1
     ev_pre = [e for e in hook.events if e['cb'] == 'pre_step']
     ev_post = [e for e in hook.events if e['cb'] == 'post_step']
     acc = sorted([e for e in ev_post if not e.get('restart')], key=lambda e: (e['time'], e['seq']))
